@@ -18,7 +18,8 @@ columns of .mpt/.P00/.dfr are negated).  A library exception on such a file is a
 Multi-sweep tables (csv/txt, DataFrames, .mpt): all sweeps of a file share the row order and a new sweep begins where
 the frequency turns back (that reversal is the only thing that marks a sweep, so descending rows that simply go on
 descending are one sweep and are never written as two).  Beyond that the sweeps are unrelated: same grid or a
-prefix of it, a later sweep entirely above (descending rows) / below (ascending rows) the first so that the file ends
+prefix of it with new impedances, EXACT repeats (bit-identical rows: the whole first sweep written again, an
+overlapping slice of the same noise-free spectrum, a single shared row - a repeated row is data, not a duplicate), a later sweep entirely above (descending rows) / below (ascending rows) the first so that the file ends
 beyond where it started, shifted, partially overlapping, nested, different lengths, one- and two-point sweeps among
 longer ones (never as the first sweep: the first two rows define the row order).  finalize() is INCONCLUSIVE if one of
 these kinds was not written.
@@ -52,7 +53,7 @@ ID = "C06"
 RULE = (
     "files are generated from layout configurations: (a) random valid csv cells over 19 dimensions {coords, 5 header "
     "names (documented aliases + to_dataframe defaults + /unit forms), unit suffix, letter case, negation marker on "
-    "Re/Im/phase, separator, decimal mark, row order, 1..3 sweeps (later sweeps on the same grid, entirely beyond the first, "
+    "Re/Im/phase, separator, decimal mark, row order, 1..3 sweeps (later sweeps on the same grid, exact repeats with bit-identical rows, entirely beyond the first, "
     "shifted, nested, anywhere, or 1-2 points long; different lengths), column order, number format, access mode, size class}, "
     "completed so that every feasible PAIR of values is present (quick) ; (b) the block of all (frequency, real, imaginary) and "
     "(frequency, modulus, phase) header-name triples, in thorough crossed exhaustively with case x separator/decimal x "
@@ -330,6 +331,12 @@ def run_job(job, res):
             st("multi_sweep_tables:with_one_point_sweep")
         if any(max(e["f"]) < min(exp[0]["f"]) or min(e["f"]) > max(exp[0]["f"]) for e in exp[1:]):
             st("multi_sweep_tables:with_sweep_disjoint_from_first")
+        rows0 = set(zip(exp[0]["f"], exp[0]["re"], exp[0]["im"]))
+        shared = [sum(r in rows0 for r in zip(e["f"], e["re"], e["im"])) for e in exp[1:]]
+        if any(shared):
+            st("multi_sweep_tables:with_row_identical_to_earlier_sweep")
+        if any(c == len(rows0) == len(e["f"]) for c, e in zip(shared, exp[1:])):
+            st("multi_sweep_tables:with_whole_sweep_repeated_exactly")
 
     # ---- DataFrame jobs --------------------------------------------------------------------------
     if layout == "df":
@@ -618,7 +625,8 @@ def finalize(agg):
             inc.append(f"recorder never saw {name} being called")
     if st.get("cli_tables", 0) == 0:
         inc.append("no table printed by the CLI was re-parsed")
-    for name in ("last_row_beyond_first_row", "sweeps_of_different_length", "with_one_point_sweep", "with_sweep_disjoint_from_first"):
+    for name in ("last_row_beyond_first_row", "sweeps_of_different_length", "with_one_point_sweep", "with_sweep_disjoint_from_first",
+                 "with_row_identical_to_earlier_sweep", "with_whole_sweep_repeated_exactly"):
         if st.get("multi_sweep_tables:" + name, 0) == 0:
             inc.append(f"no multi-sweep table of kind '{name}' was written")
     if st.get("frames:df", 0) == 0 or st.get("frames:emit", 0) == 0:
